@@ -7,7 +7,7 @@ CHECKS = {
  "C19": dict(
   level="model_checking", design="§4 C19, spec/GenDir.tla",
   technique="TLA+ model of goag.go Generate (MC_GenDir) enumerated by TLC; every history replayed on the real generator; directories judged by TLC (Trace_GenDir)",
-  text="TLC enumerates every history of invocations (<=3 over the 8 invocations of the property; thorough: length 4, failing invocations, user edits and deletions) of a step-level model of Generate and checks DirMatchesLast / UserUntouched / Idempotent on it; every enumerated history is then executed with the real generator and the recorded directory contents after each run are validated by TLC against the Prop layer (RunOKPost / RunErrPost) - exhaustive at the stated bound on both model and code. The directory holds two user files from the start, one of them a real Go source file of the package that binds log / fmt / strings to a package of its own (owned files must not depend on it).",
+  text="TLC enumerates every history of invocations (<=3 over the 8 invocations of the property, plus every history of <=2 (thorough: <=3) over the 16 invocations that also switch the DO NOT EDIT header option between runs; thorough: length 4, failing invocations, user edits and deletions) of a step-level model of Generate and checks DirMatchesLast / UserUntouched / Idempotent on it; every enumerated history is then executed with the real generator and the recorded directory contents after each run are validated by TLC against the Prop layer (RunOKPost / RunErrPost) - exhaustive at the stated bound on both model and code. The directory holds two user files from the start, one of them a real Go source file of the package that binds log / fmt / strings to a package of its own (owned files must not depend on it).",
   note="Trusts sha256 for file equality, the measured Fresh(inv) (one run of each invocation into an empty directory), TLC and the harness's directory listing. Flags other than client/api-handler are fixed; the five spec kinds are fixed texts in harness/internal/checks/c19.go."),
 }
 
